@@ -262,6 +262,7 @@ CLI_N = {"quick": 20, "thorough": 400}
 CLI_FIXTURES = 7          # bridge_echo cat_facts counter hello_world notes simple_counter tap_to_pay
 CLI_ORDERS = 120 + 6 + 2 + 1 + 1 + 1 + 1   # 5!, 3!, 2!, 1 … orders of the dependent crates of the seven fixtures (all are run)
 CLI_PROTO_TYPES = 18
+CLI_SYN = {"quick": 300, "thorough": 5000}   # synthetic crate sets; each gives 4 cases (id, renum, shuf, mix)
 
 
 def cli_gen(tier, seed):
@@ -270,6 +271,10 @@ def cli_gen(tier, seed):
 
 def cli_proto_gen(tier, seed):
     return [["gen-proto"]]
+
+
+def cli_syn_gen(tier, seed):
+    return [["gen-syn", seed, CLI_SYN.get(tier, 300)]]
 
 
 def cli_shape(case, out):
@@ -286,12 +291,13 @@ def cli_counts(tier):
     n = CLI_N[tier]
     return (f"{tier}: {CLI_FIXTURES} originals + {CLI_FIXTURES}x{n} renumberings + {CLI_FIXTURES}x{n // 2} map-order shuffles + "
             f"{CLI_FIXTURES}x{n // 2} mixed + {CLI_ORDERS} crate orders = {CLI_FIXTURES * (1 + 2 * n) + CLI_ORDERS} registry cases, "
-            f"{CLI_PROTO_TYPES} protocol-type cases")
+            f"{CLI_PROTO_TYPES} protocol-type cases, {CLI_SYN[tier]} synthetic crate sets x 4 = {4 * CLI_SYN[tier]} synthetic cases")
 
 
 PROPS["C20"] = {
     "streams": [Stream("reg", "cli", "cli", cli_gen, nontrivial=cli_nontrivial, shape=cli_shape),
-                Stream("proto", "cli", "cli", cli_proto_gen, nontrivial=cli_nontrivial, shape=cli_shape)],
+                Stream("proto", "cli", "cli", cli_proto_gen, nontrivial=cli_nontrivial, shape=cli_shape),
+                Stream("syn", "cli", "cli", cli_syn_gen, nontrivial=cli_nontrivial, shape=cli_shape)],
     "rule": "stream reg: for each of the 7 bundled rustdoc descriptions (bridge_echo, cat_facts, counter, hello_world, simple_counter, "
             "and notes, tap_to_pay whose stored expectation is stale and is not used) the harness builds variants of the FULL "
             "rustdoc JSON of the crate and of every dependent crate the CLI loads: id = as bundled; renum:<seed> = every item id, "
@@ -307,7 +313,14 @@ PROPS["C20"] = {
             "M.Codegen.registry computes its registry (diffed with the real one). stream proto: one case per capability protocol "
             "type (crux_http, crux_kv, crux_time, crux_platform, render): container traced by serde-reflection 0.4 from the real "
             "type (as crux_core::typegen does) vs the container of that name in the registry the real CLI derives for a bundled "
-            "app using the capability. Counts — " + cli_counts("quick") + "; " + cli_counts("thorough") + " (`evaluations` below is the "
+            "app using the capability. stream syn (model fidelity beyond what the fixtures exercise; outside the quantifier of "
+            "C20, so only invariance and index contiguity are demanded of it): seeded synthetic crux-shaped crate sets (App with "
+            "Event/ViewModel/Effect+EffectFfi, operations with outputs, optional nested child app, optional dependent crate) over "
+            "random type definitions covering every rename_all rule, rename (single/repeated), skip on fields and variants, with, "
+            "tuple structs/variants with holes, unit structs as field types, Option/Vec/tuple nesting, Range, __private_field, "
+            "renamed containers, unsupported type expressions (the CLI panics) and unavailable crates (the run fails); each set as "
+            "generated and renumbered / shuffled / mixed, the real CLI's observation on the generated set being what each variant "
+            "must reproduce. Counts — " + cli_counts("quick") + "; " + cli_counts("thorough") + " (`evaluations` below is the "
             "measured total of the run, `tier` says which line applies). non-trivial = the real CLI produced a registry/container; "
             "distinct = distinct (stream, fixture, variant or protocol type)",
     "level_text": "Proof (formatter stage, for ANY edge relation, not only the fixtures): variant_indices, perm_invariant_partial, "
@@ -778,6 +791,52 @@ rt_prop("C13", ["bridge", "core", "cancel"],
         "call through the crux_verif hooks.",
         goals=["tasks_released_goal"])
 
+# ---------------------------------------------------------------- conc engine (C08)
+
+def conc_evict_gen(tier, seed):
+    return [["gen", seed, 300 if tier == "quick" else 17000, "evict"]]
+
+
+def conc_race_gen(tier, seed):
+    return [["gen", seed, 4000 if tier == "quick" else 150000, "race"]]
+
+
+def conc_shape(case, out):
+    heads = tuple(sorted(set(_re.findall(r"\((\w[\w-]*)", case))))
+    order = case.rsplit("(", 1)[-1]
+    return (heads, order.strip(") "), out.split(" E{")[0])
+
+
+PROPS["C08"] = {
+    "streams": [
+        Stream("evict", "conc", "conc", conc_evict_gen, shape=conc_shape, shrink=sexp_shrinks),
+        Stream("race", "conc", "conc", conc_race_gen, shape=conc_shape, shrink=sexp_shrinks, compare_model=False),
+    ],
+    "rule": "evict: a task awaiting join!(r0..rN) whose r0 is resolved is polled by thread 0 (`is_done()`) while threads 1..N resolve "
+            "r1..rN; real threads are forced through an interleaving of the crux_verif schedule points (exactly one thread runs "
+            "between two points); N=1: ALL interleavings of the poller's 2 steps with the waker's 5 steps (21, exhaustive), N=2: "
+            "seeded sample of the 16632; the outcome (task evicted or completed) must equal the prediction of the LTS M.Conc on the same "
+            "schedule, and an eviction is a lost response. race: generated DSL commands (distinct operations), a sequential prefix, "
+            "then two threads concurrently performing is_done() / resolve / drop under a random schedule of 4-17 grants; the oracle "
+            "accepts an outcome (result classes, multiset of effects and events, done flag, live tasks) iff it equals the outcome of one "
+            "of the two sequential orders computed by M.Hosts (linearizability). non-trivial: every case (each forces a real "
+            "interleaving); distinct = distinct (constructs, schedule, result classes)",
+    "level_text": "Proof (Props/C08.lean) on the LTS M.Conc (P-evict: eviction check of Command::run_task vs any number of concurrent "
+                  "holders of the poll's waker, steps = code between schedule points, sequentially consistent memory): "
+                  "evict_safe_swapped — for ANY number of holders and ANY interleaving of any length a task for which a wake-up is sent "
+                  "is never evicted, with the read order of the repaired code (invariant by induction over schedules); "
+                  "evict_race_pinned_order — the read order of the pinned tree is unsafe (witness interleaving; reproduced on real "
+                  "threads before the fix, see KNOWN_FINDINGS fixed: C08); evict_still_evicts. Linearizability of whole concurrent calls "
+                  "is NOT proved; it is checked on real threads against both sequential orders of M.Hosts (race stream). The executor "
+                  "slot protocol of QueuingExecutor (P-slot) and Core-level concurrent calls are not yet modelled as an LTS.",
+    "level_note": "Trusted: Lean kernel + standard axioms; the LTS M.Conc, tied to the code by replaying every enumerated interleaving "
+                  "on real threads through the schedule-point hooks (semantic no-ops) and comparing outcomes exactly; sequential "
+                  "consistency (the acquire fence of the fix is argued in the commit message, not proved); the schedule controller in "
+                  "harness/src/bin/conc.rs; M.Hosts as the sequential specification for the linearizability oracle.",
+    "stated_not_proved": ["linearizability of concurrent Core calls (checked by the race stream only)", "P-slot / P-shared invariants"],
+    "assumptions": ["sequentially consistent memory", "threads interleave only at schedule points placed where no lock is held"],
+}
+
 # properties not claimed yet, with the reason shown in MANIFEST.not_applicable
 NOT_YET = {}
 # ---- C18 (engine timer) -----------------------------------------------------------------------------------------
@@ -864,10 +923,11 @@ ENGINE_TEXT = {
     "cli": ENGINE_TEXT_C20,
     "mw": "real crux_http middleware stacks + Redirect through a real Core<App>, harness as shell (Rust) vs M.Mw (Lean), oracle S.Mw",
     "rt": "DSL programs x shell histories on the real crux_core runtime (direct / Core / bincode+JSON Bridge hosts, command and legacy capability API) vs M.Rt/M.Hosts (Lean); oracles Driver/RtOracle.lean",
+    "conc": "real threads forced through enumerated interleavings of the crux_verif schedule points vs the LTS M.Conc (evict) and vs the two sequential orders of M.Hosts (race)",
     "kv": "real crux_kv calls (capability + command API; Core and bincode Bridge hosts) vs M.Kv (Lean), oracle S.Kv",
     "conv": "differential driver for crux_time::protocol conversions (Rust) vs M.Conv (Lean), oracle S.Conv",
 }
 HOOK_COMMITS = ["3b3ccf0", "fd94595", "1055c0e", "261bd7a"]
 
 # Only these are listed in MANIFEST.json as claimed (the lead adds an id here once its check has been reviewed and passes).
-CLAIMED = ["C01", "C02", "C03", "C04", "C05", "C06", "C07", "C09", "C10", "C12", "C13", "C16", "C17", "C19"]
+CLAIMED = ["C01", "C02", "C03", "C04", "C05", "C06", "C07", "C08", "C09", "C10", "C12", "C13", "C15", "C16", "C17", "C19"]
